@@ -49,8 +49,8 @@ PROPS["C03"] = dict(
 )
 PROPS["C04"] = dict(
     title="The token stream is a well-formed tree and every Pairs view agrees with it",
-    verus_units=[("core", {}, "")],
-    kani=[], searcher=None,
+    verus_units=[("core", {}, ""), ("pairs", {}, "")],
+    kani=[], searcher="pairs",
     design_ref="DESIGN.md section 5, C04",
     technique="contract-based deductive verification (Verus): recursive closed-forest predicate as part of the frame law of every ParserState operation; precondition of pairs::new discharged in state()",
     level_text="Part (a), emission: proved for all call trees of lawful closures that the tokens appended by any operation form a closed forest (balanced, properly nested, positions non-decreasing, on UTF-8 boundaries, within the text walked), hence every successful parse hands pairs::new a well-formed stream. Part (b), views: see the pairs unit.",
